@@ -539,7 +539,14 @@ def r4(ctx, R):
                             for st in ctx.m.walk_own(g.node):
                                 if isinstance(st, ast.Assign) and isinstance(st.targets[0], ast.Attribute) and st.targets[0].attr in tails:
                                     v = st.value
-                                    alts = [v.body, v.orelse] if isinstance(v, ast.IfExp) else [v]
+                                    if isinstance(v, ast.Name):
+                                        # through a local (an inlined setter's parameter): every definition of it counts
+                                        from .shared import defs_of as _defs_of
+
+                                        dvs = [dv for _, dv in _defs_of(ctx, g, v.id)]
+                                        if dvs and all(dv is not None for dv in dvs):
+                                            v = dvs[0] if len(dvs) == 1 else ast.Tuple(elts=dvs, ctx=ast.Load())
+                                    alts = [v.body, v.orelse] if isinstance(v, ast.IfExp) else ([x_ for d_ in v.elts for x_ in ([d_.body, d_.orelse] if isinstance(d_, ast.IfExp) else [d_])] if isinstance(v, ast.Tuple) else [v])
                                     is_pop = lambda x: isinstance(x, ast.Call) and isinstance(x.func, ast.Attribute) and x.func.attr == "pop"
                                     if any(is_pop(x) for x in alts) and all(is_pop(x) or isinstance(x, ast.Constant) and x.value is None for x in alts):
                                         progress[i] = f"{unparse(c)} pops the tested state ({st.targets[0].attr})"
